@@ -14,6 +14,25 @@ judged by
   * a differential oracle: dulwich's own DiskRefsContainer performs the same
     operation on a byte-identical copy of the directory.
 
+Stale-cache half (`execute(ctx, combo, change)`): the container under test (and
+the dulwich reference on the copy) is opened and has read packed-refs and the
+ref; THEN a rival -- a second container on the same directory, or raw
+`git update-ref` / `git pack-refs`-style file operations -- deletes, moves,
+repacks or creates the ref; then the conditional operation runs.  No
+preemption is involved: the expected value must be compared with the disk, not
+with what the container remembers.  Same statement + dulwich oracles, keys end
+in `:stale-cache`.
+
+Push half (`push_case(ctx)`): real `Branch.push(lossy=True)` from a bzr branch
+into a local git repository (new and existing branch refs).  A monitor on the
+container boundary records the snapshot `InterToLocalGitRepository.fetch_refs`
+takes and every ref write it makes: a ref absent from the snapshot must be
+written with add_if_new (or expected = 40 zeros), a ref in the snapshot with
+set_if_equals(expected = snapshot value); expected None is an unconditional
+write.  A rival creates / moves / deletes the same ref once, right after the
+snapshot, after fetch_revs, or just before the first ref write, and its value
+must survive the push (`push:*` keys).
+
 Schedule half: `schedule_case(ctx)` races 2-3 updaters (own containers on a vf+
 transport) under vf.instr.Scheduler and judges the outcome against a
 one-register CAS model; `forced_window_case(ctx)` is the one deterministic
@@ -34,15 +53,20 @@ LEVEL_TEXT = ("every combination of ref storage (absent/loose/packed/loose+packe
               "HEAD or a ref, two-level symref, dangling, loop) x expected-old class x op x container cache state is "
               "executed (several times, with random names, values, bystanders and packed-refs header variants); "
               "sequential executions only")
-RULE = ("case = (op, storage of the final ref, access path, expected-old class, container warm/fresh) with random ref names "
+RULE = ("[sequential] case = (op, storage of the final ref, access path, expected-old class, container warm/fresh) with random ref names "
         "(nested, %-quoted, non-ascii), values, bystander refs and packed-refs header; the full product is enumerated "
         "every run; non-trivial = expected-old given or the ref exists or is reached through a symref; distinct = "
-        "distinct (combination, observed outcome)")
+        "distinct (combination, observed outcome); [stale-cache] the 444 (op, storage, access, rival change, expected-old "
+        "class) combinations, each executed with a warm container and a rival change before the operation; [push] real "
+        "pushes with one rival action (new ref / moved ref / deleted ref x 3 points); [schedule] sampled interleavings "
+        "of 2-3 updaters, distinct = distinct decision lists")
 CASES = {"quick": 64, "thorough": 256}
 BUDGET_S = {"quick": 45, "thorough": 600}
 MIN_EVALS = {"quick": 1500, "thorough": 20000}
 FLOORS = {"oracle_statement": 1500, "oracle_dulwich": 1500, "mismatch_must_fail": 300,
           "match_must_succeed": 300, "add_if_new_existing": 50, "remove_success_really_removed": 100}
+FLOORS.update({"stale_cache_judged": 300, "stale_cache_remove_if_equals": 100, "stale_cache_add_if_new": 30,
+               "push_ref_write_judged": 150, "push_rival_judged": 60})
 if os.environ.get("VERIF_C37_SCHEDULE", "1") != "0":
     FLOORS["schedule_judged"] = 100
 EXHAUSTIVE = {"quick": False, "thorough": False}
@@ -54,11 +78,12 @@ ASSUMPTIONS = [
     "expected-old == 40 zeros on an absent ref, and remove_if_equals on a symbolic ref with expected == the *resolved* "
     "value, are not decided by the statement; there only 'reported failure => nothing changed' and agreement with "
     "dulwich are required",
-    "the container under test is created after the state was written (a container whose packed-refs cache went stale "
-    "because another process repacked is a concurrency scenario)",
+    "stale-cache half: the rival acts between two operations of the container under test, never inside one",
+    "push half: one pusher (bzr -> local git, lossy), one rival action at one of three points between the pusher's "
+    "snapshot and its ref writes; overwrite=False",
 ]
-REPS = {"quick": 4, "thorough": 60}
-SCHED_REPS = {"quick": 4, "thorough": 16}
+REPS = {"quick": 3, "thorough": 60}
+SCHED_REPS = {"quick": 3, "thorough": 16}
 # The two-updater half.  It reports C37:concurrent-cas:* on the unchanged tree AND with the sequential repair applied
 # (the compare -> write window is not closed, see /verif/fixes/C37-*.md); VERIF_C37_SCHEDULE=0 runs the sequential half only.
 SCHEDULE_HALF = os.environ.get("VERIF_C37_SCHEDULE", "1") != "0"
@@ -98,6 +123,28 @@ def combos():
 
 
 COMBOS = combos()
+
+
+def stale_combos():
+    """(combo, rival change): the container is warm, then the ref changes on disk, then the operation runs."""
+    out = []
+    for op in OPS:
+        for storage in ("packed", "loose", "loose+packed", "absent"):
+            changes = ("create-packed", "create-loose") if storage == "absent" else \
+                ("delete", "move-loose", "move-repack", "repack-same")
+            for access in ("direct", "symref", "head"):
+                for change in changes:
+                    olds = ("stale", "equal", "none", "zero", "different") if op != "add_if_new" else ("n/a",)
+                    for old in olds:
+                        if old == "equal" and change == "delete":
+                            continue
+                        out.append(((op, storage, access, old, "warm"), change))
+    return out
+
+
+STALE_COMBOS = stale_combos()
+STALE_REPS = {"quick": 1, "thorough": 12}
+PUSH_REPS = {"quick": 2, "thorough": 10}
 
 
 # ----------------------------------------------------------------- helpers
@@ -342,12 +389,129 @@ def storage_key(storage):
 
 # ----------------------------------------------------------------- one execution
 
-def execute(ctx, combo):
+class _Judge:
+    """ctx.check / ctx.fail with a suffix on the mechanism key (":stale-cache" for the two-container half)."""
+
+    def __init__(self, ctx, sfx):
+        self.ctx, self.sfx = ctx, sfx
+
+    def fail(self, key, msg, detail=None):
+        self.ctx.fail(key + self.sfx, msg, detail)
+
+    def check(self, cond, key, msg, detail=None):
+        if not cond:
+            self.fail(key, msg, detail)
+        return cond
+
+
+CHANGES = ("delete", "move-loose", "move-repack", "repack-same", "create-packed", "create-loose")
+
+
+def write_packed(gitdir, entries, header=True):
+    """`git pack-refs`-style rewrite of packed-refs by a rival: entries = {name: (sha, peeled|None)}."""
+    tmp = os.path.join(gitdir, "packed-refs.new")
+    with open(tmp, "wb") as f:
+        if header:
+            f.write(b"# pack-refs with: peeled fully-peeled sorted \n")
+        for name in sorted(entries):
+            sha, peeled = entries[name]
+            f.write(sha + b" " + name + b"\n")
+            if peeled is not None and header:
+                f.write(b"^" + peeled + b"\n")
+    os.replace(tmp, os.path.join(gitdir, "packed-refs"))
+
+
+def rival_change(gitdir, wt, change, target, v2, rival):
+    """Another process changes `target` behind the back of an already warm container.
+    rival = a second container on the same directory (breezy on the real dir, dulwich on the copy) or None = raw
+    file operations as `git update-ref` / `git pack-refs` would do them."""
+    snap, _ = snapshot(gitdir, wt)
+    packed = {k: (v[1], v[2]) for k, v in snap.items() if v[1]}
+    loose_path = os.path.join(gitdir.encode(), target)
+    cur = resolve(snap, target)[1]
+
+    def rm_loose():
+        try:
+            os.remove(loose_path)
+        except FileNotFoundError:
+            pass
+
+    def put_loose(v):
+        os.makedirs(os.path.dirname(loose_path), exist_ok=True)
+        with open(loose_path, "wb") as f:
+            f.write(v + b"\n")
+
+    if change == "delete":
+        if rival is not None:
+            rival.remove_if_equals(target, None)
+        else:
+            rm_loose()
+            if target in packed:
+                del packed[target]
+                write_packed(gitdir, packed)
+    elif change in ("move-loose", "create-loose"):
+        if rival is not None:
+            rival.set_if_equals(target, None, v2)
+        else:
+            put_loose(v2)
+    elif change in ("move-repack", "create-packed"):
+        packed[target] = (v2, None)
+        write_packed(gitdir, packed)
+        rm_loose()
+    elif change == "repack-same":
+        packed[target] = (cur, None)
+        write_packed(gitdir, packed)
+        rm_loose()
+    else:
+        raise AssertionError(change)
+
+
+def storage_of(snap, name):
+    e = snap.get(name)
+    if e is None or not (e[0] or e[1]):
+        return "absent"
+    if e[0] and e[1]:
+        return "loose+packed"
+    return "loose" if e[0] else "packed"
+
+
+def execute(ctx, combo, change=None):
+    """One conditional operation on one generated state.  With `change`, the container under test (and the
+    dulwich reference) is opened and warmed FIRST, then a rival changes the ref on disk, then the operation runs:
+    the expected-old value must be compared with what is on disk now, not with what the container remembers."""
     op, storage, access, oldk, warm = combo
     rng = ctx.rng
     state, name, target = build_state(rng, storage, access)
+    if change is not None:
+        state["layout"] = "bare"
     root = ctx.tmp("c37")
     gitdir, wt = write_state(root, state)
+    root2 = ctx.tmp("c37d")
+    gitdir2 = os.path.join(root2, "g")
+    shutil.copytree(gitdir, gitdir2, symlinks=True)
+    wt2 = gitdir2 if wt == gitdir else os.path.join(gitdir2, os.path.relpath(wt, gitdir))
+    sfx = ""
+    stale_value = None
+    c = dul = None
+    if change is not None:
+        sfx = ":stale-cache"
+        snap0, _ = snapshot(gitdir, wt)
+        stale_value = resolve(snap0, name)[1]
+        c, dul = open_breezy(gitdir, wt), open_dulwich(gitdir2, wt2)
+        for cont in (c, dul):  # both have read packed-refs and the ref before the rival acts
+            cont.allkeys()
+            try:
+                cont[name]
+            except KeyError:
+                pass
+        v2 = _sha(rng)
+        via_container = change in ("delete", "move-loose", "create-loose") and rng.random() < 0.5
+        rival_change(gitdir, wt, change, target, v2, open_breezy(gitdir, wt) if via_container else None)
+        rival_change(gitdir2, wt2, change, target, v2, open_dulwich(gitdir2, wt2) if via_container else None)
+        ctx.hist("stale:change:%s:%s" % (change, "container" if via_container else "raw"))
+        s1, s2 = snapshot(gitdir, wt)[0], snapshot(gitdir2, wt2)[0]
+        if values_view(s1) != values_view(s2):
+            ctx.discard("stale: rival change gave different states in the two directories")
     before, locks0 = snapshot(gitdir, wt)
     chain, cur = resolve(before, name)
     dcur = direct_value(before, name)
@@ -365,27 +529,32 @@ def execute(ctx, combo):
         old = state["refs"][target]["packed"]
     elif oldk == "symref-text":
         old = dcur
+    elif oldk == "stale":
+        old = stale_value if stale_value is not None else ZERO
     detail = {"op": op, "storage": storage, "access": access, "expected_old_class": oldk, "container": warm,
               "name": jb(name), "chain": jb(chain), "current": jb(cur), "expected_old": jb(old), "new": jb(new),
               "layout": state["layout"], "state": jb(state["refs"]), "packed_header": state["header"]}
+    if change is not None:
+        detail.update(rival_change=change, value_when_container_was_opened=jb(stale_value),
+                      on_disk_now=jb({k: v for k, v in before.items() if k in chain}))
+        storage = storage_of(before, chain[-1])
 
     # reference run: dulwich on a byte-identical copy
-    root2 = ctx.tmp("c37d")
-    gitdir2 = os.path.join(root2, "g")
-    shutil.copytree(gitdir, gitdir2, symlinks=True)
-    wt2 = gitdir2 if wt == gitdir else os.path.join(gitdir2, os.path.relpath(wt, gitdir))
-    dul = open_dulwich(gitdir2, wt2)
-    if warm == "warm":
-        dul.allkeys()
+    if dul is None:
+        dul = open_dulwich(gitdir2, wt2)
+        if warm == "warm":
+            dul.allkeys()
     dres = run_op(dul, op, name, old, new)
     dafter, _ = snapshot(gitdir2, wt2)
 
     # real run
-    c = open_breezy(gitdir, wt)
-    if warm == "warm":
-        c.allkeys()
+    if c is None:
+        c = open_breezy(gitdir, wt)
+        if warm == "warm":
+            c.allkeys()
     res = run_op(c, op, name, old, new)
     after, locks = snapshot(gitdir, wt)
+    J = _Judge(ctx, sfx)
     ctx.hist("op:" + op)
     ctx.hist("outcome:%s:%s" % (op, res[1]))
     detail["returned"] = repr(res[2])[:200]
@@ -407,18 +576,21 @@ def execute(ctx, combo):
 
     # ---- statement oracle
     ctx.count("oracle_statement")
+    if change is not None:
+        ctx.count("stale_cache_judged")
+        ctx.count("stale_cache_%s" % op)
     if res[0] == "exc":
         if dres[0] == "exc" and dres[1] == res[1]:
             ctx.hist("refusal-both:%s:%s" % (op, res[1]))
-            ctx.check(after == before, "%s:raised-but-changed" % op, "operation raised %s but the refs changed" % res[1], detail)
+            J.check(after == before, "%s:raised-but-changed" % op, "operation raised %s but the refs changed" % res[1], detail)
         else:
-            ctx.fail("%s:unexpected-exception:%s" % (op, res[1]), "breezy raised %r, dulwich %s" % (res[2], dres[:2]), detail)
+            J.fail("%s:unexpected-exception:%s" % (op, res[1]), "breezy raised %r, dulwich %s" % (res[2], dres[:2]), detail)
         outcome = "exc:" + res[1]
     else:
         ok = res[1]
         outcome = "true" if ok else "false"
         if not ok:
-            ctx.check(after == before, "%s:failed-but-changed" % op,
+            J.check(after == before, "%s:failed-but-changed" % op,
                       "returned False but the ref files changed", detail)
         if access == "loop":
             ctx.hist("silent:loop")
@@ -428,33 +600,33 @@ def execute(ctx, combo):
             decided = must_ok or must_fail
             if must_fail:
                 ctx.count("mismatch_must_fail")
-                ctx.check(not ok, "set_if_equals:expected-mismatch:%s%s" % (sk, via),
+                J.check(not ok, "set_if_equals:expected-mismatch:%s%s" % (sk, via),
                           "current %r != expected %r but set_if_equals returned True" % (cur, old), detail)
                 if ok:
-                    ctx.check(after == before, "set_if_equals:expected-mismatch-overwrote:%s%s" % (sk, via),
+                    J.check(after == before, "set_if_equals:expected-mismatch-overwrote:%s%s" % (sk, via),
                               "current %r != expected %r and the ref was overwritten" % (cur, old), detail)
             elif must_ok:
                 ctx.count("match_must_succeed")
-                ctx.check(ok, "set_if_equals:refused-although-equal:%s%s" % (sk, via),
+                J.check(ok, "set_if_equals:refused-although-equal:%s%s" % (sk, via),
                           "current %r == expected %r (or None) but returned False" % (cur, old), detail)
             else:
                 ctx.hist("silent:zero-on-absent")
             if ok:
-                ctx.check(resolve(after, name)[1] == new, "set_if_equals:success-but-value-not-set:%s%s" % (sk, via),
+                J.check(resolve(after, name)[1] == new, "set_if_equals:success-but-value-not-set:%s%s" % (sk, via),
                           "returned True but %r now resolves to %r, wanted %r" % (name, resolve(after, name)[1], new), detail)
                 changed = moved(real)
-                ctx.check(not changed, "set_if_equals:bystander-changed", "other refs changed: %r" % changed, detail)
+                J.check(not changed, "set_if_equals:bystander-changed", "other refs changed: %r" % changed, detail)
         elif op == "remove_if_equals":
             must_ok = old is None or old == dcur
             must_fail = (old is not None and old != dcur and old != cur and not (dcur is None and old == ZERO))
             decided = must_ok or must_fail
             if must_fail:
                 ctx.count("mismatch_must_fail")
-                ctx.check(not ok, "remove_if_equals:expected-mismatch:%s" % (sk if not is_sym else "symbolic"),
+                J.check(not ok, "remove_if_equals:expected-mismatch:%s" % (sk if not is_sym else "symbolic"),
                           "current %r != expected %r but remove_if_equals returned True" % (dcur, old), detail)
             elif must_ok:
                 ctx.count("match_must_succeed")
-                ctx.check(ok, "remove_if_equals:refused-although-equal:%s" % (sk if not is_sym else "symbolic"),
+                J.check(ok, "remove_if_equals:refused-although-equal:%s" % (sk if not is_sym else "symbolic"),
                           "current %r == expected %r (or None) but returned False" % (dcur, old), detail)
             else:
                 ctx.hist("silent:remove:%s" % ("symref-resolved-value" if is_sym else "zero-on-absent"))
@@ -463,27 +635,27 @@ def execute(ctx, combo):
                 e = after.get(name)
                 if e is not None:
                     left = "+".join(x for x, v in (("loose", e[0]), ("packed", e[1])) if v)
-                    ctx.fail("remove_if_equals:success-but-still-present:%s:%s" % (left, warm),
+                    J.fail("remove_if_equals:success-but-still-present:%s:%s" % (left, warm),
                              "returned True but %r still has %s value %r" % (name, left, e), detail)
                 changed = moved(name)
-                ctx.check(not changed, "remove_if_equals:bystander-changed", "other refs changed: %r" % changed, detail)
+                J.check(not changed, "remove_if_equals:bystander-changed", "other refs changed: %r" % changed, detail)
                 kept = {k: v for k, v in before.items() if k != name}
-                ctx.check(all(after.get(k) == v for k, v in kept.items()), "remove_if_equals:bystander-storage-changed",
+                J.check(all(after.get(k) == v for k, v in kept.items()), "remove_if_equals:bystander-storage-changed",
                           "loose/packed/peeled records of other refs changed", detail)
         else:  # add_if_new
             decided = True
             if cur is not None:
                 ctx.count("add_if_new_existing")
-                ctx.check(not ok, "add_if_new:overwrote-existing:%s%s" % (sk, via),
+                J.check(not ok, "add_if_new:overwrote-existing:%s%s" % (sk, via),
                           "ref resolves to %r but add_if_new returned True" % (cur,), detail)
             else:
                 ctx.count("add_if_new_absent")
-                ctx.check(ok, "add_if_new:refused-although-absent%s" % via, "ref is absent but add_if_new returned False", detail)
+                J.check(ok, "add_if_new:refused-although-absent%s" % via, "ref is absent but add_if_new returned False", detail)
             if ok:
-                ctx.check(resolve(after, name)[1] == new, "add_if_new:success-but-value-not-set%s" % via,
+                J.check(resolve(after, name)[1] == new, "add_if_new:success-but-value-not-set%s" % via,
                           "returned True but %r resolves to %r" % (name, resolve(after, name)[1]), detail)
                 changed = moved(real)
-                ctx.check(not changed, "add_if_new:bystander-changed", "other refs changed: %r" % changed, detail)
+                J.check(not changed, "add_if_new:bystander-changed", "other refs changed: %r" % changed, detail)
     if locks != locks0:
         ctx.hist("stale-lock-file-left:%s" % op)
 
@@ -510,16 +682,16 @@ def execute(ctx, combo):
         elif decided:
             ctx.hist("dulwich-deviates-from-statement:%s:%s:%s" % (op, access, "return" if not same else "values"))
         elif not same:
-            ctx.fail("differs-from-dulwich:%s:return-value:%s" % (op, zone),
+            J.fail("differs-from-dulwich:%s:return-value:%s" % (op, zone),
                      "breezy returned %r, dulwich %r" % (res[1], dres[1]), detail)
         else:
-            ctx.fail("differs-from-dulwich:%s:resulting-values:%s" % (op, zone),
+            J.fail("differs-from-dulwich:%s:resulting-values:%s" % (op, zone),
                      "same return value but different resulting ref values for %r" % diff, detail)
     elif res[0] == "ret" and dres[0] == "exc":
         ctx.hist("dulwich-refused-only:%s:%s" % (op, dres[1]))
-    ctx.distinct("outcome_class", (combo, outcome))
+    ctx.distinct("outcome_class" if change is None else "stale_outcome_class", (combo, change, outcome))
     nontrivial = old is not None or storage != "absent" or access != "direct"
-    ctx.note((combo, outcome), nontrivial=nontrivial,
+    ctx.note((combo, change, outcome), nontrivial=nontrivial,
              sample={k: detail[k] for k in ("op", "storage", "access", "expected_old_class", "container", "name",
                                             "current", "expected_old", "returned", "dulwich_returned")}
              if rng.random() < 0.01 else None)
@@ -692,6 +864,231 @@ def schedule_case(ctx):
              sample=detail if rng.random() < 0.02 else None)
 
 
+# ----------------------------------------------------------------- push level: fetch_refs must write refs conditionally
+
+PUSH_REF_NAMES = ["master", "topic", "feature/x", "rel-1.0"]
+RIVAL_POINTS = ("after-snapshot", "after-fetch_revs", "before-first-ref-write")
+
+
+class PushMonitor:
+    """Observes InterToLocalGitRepository.fetch_refs from outside: the snapshot of the target refs it takes, and
+    every ref write it makes on the target's refs container; optionally lets a rival updater (its own container on
+    the same directory) act once at a chosen point between snapshot and ref writes."""
+
+    def __init__(self, gitdir):
+        self.gitdir = gitdir
+        self.in_fetch_refs = 0
+        self.snapshot = None
+        self.calls = []
+        self.rival = None  # (point, callable) ; fired once
+        self.rival_fired = False
+        self._saved = []
+
+    def _fire(self, point):
+        if self.rival is not None and not self.rival_fired and self.rival[0] == point and self.in_fetch_refs:
+            self.rival_fired = True
+            self.rival[1]()
+
+    def __enter__(self):
+        from breezy.git import interrepo as IR
+        from breezy.git.transportgit import TransportRefsContainer as TRC
+
+        mon = self
+        cls = IR.InterToLocalGitRepository
+
+        def patch(owner, attr, make):
+            orig = getattr(owner, attr)
+            self._saved.append((owner, attr, orig))
+            setattr(owner, attr, make(orig))
+
+        def mk_fetch_refs(orig):
+            def fetch_refs(self_, update_refs, lossy, overwrite=False):
+                mon.in_fetch_refs += 1
+                mon.overwrite = overwrite
+                try:
+                    return orig(self_, update_refs, lossy, overwrite=overwrite)
+                finally:
+                    mon.in_fetch_refs -= 1
+            return fetch_refs
+
+        def mk_snapshot(orig):
+            def _get_target_either_refs(self_):
+                r = orig(self_)
+                if mon.in_fetch_refs:
+                    mon.snapshot = dict(r)
+                    mon._fire("after-snapshot")
+                return r
+            return _get_target_either_refs
+
+        def mk_fetch_revs(orig):
+            def fetch_revs(self_, *a, **k):
+                r = orig(self_, *a, **k)
+                mon._fire("after-fetch_revs")
+                return r
+            return fetch_revs
+
+        def mk_write(kind):
+            def make(orig):
+                def w(self_, name, *a, **k):
+                    mine = mon.in_fetch_refs and getattr(self_, "_vf_pusher", False)
+                    if mine:
+                        mon._fire("before-first-ref-write")
+                    r = orig(self_, name, *a, **k)
+                    if mine:
+                        mon.calls.append((kind, name, a, r))
+                    return r
+                return w
+            return make
+
+        patch(cls, "fetch_refs", mk_fetch_refs)
+        patch(cls, "_get_target_either_refs", mk_snapshot)
+        patch(cls, "fetch_revs", mk_fetch_revs)
+        for kind in ("set_if_equals", "add_if_new", "remove_if_equals", "set_symbolic_ref"):
+            patch(TRC, kind, mk_write(kind))
+        return self
+
+    def __exit__(self, *exc):
+        for owner, attr, orig in reversed(self._saved):
+            setattr(owner, attr, orig)
+        self._saved = []
+
+    def reset(self, rival=None):
+        self.snapshot, self.calls, self.rival, self.rival_fired = None, [], rival, False
+
+
+def judge_push_writes(ctx, mon, what, detail):
+    """Invariant at the container boundary: every ref fetch_refs writes is written conditionally on what its own
+    snapshot said -- add_if_new (or expected == 40 zeros) for refs the snapshot did not have, set_if_equals with the
+    snapshot value otherwise.  An expected value of None is an unconditional write."""
+    snap = mon.snapshot or {}
+    for kind, name, args, ret in mon.calls:
+        ctx.count("push_ref_write_judged")
+        d = dict(detail, call=[kind, jb(name), jb(list(args)), ret], snapshot=jb({k: v[0] for k, v in snap.items()}), push=what)
+        if kind == "set_symbolic_ref":
+            continue
+        if getattr(mon, "overwrite", False):
+            ctx.hist("push:overwrite-requested")
+            continue
+        had = snap.get(name, (None, None))[0]
+        if kind == "add_if_new":
+            ctx.check(had is None, "push:add_if_new-for-ref-in-snapshot",
+                      "snapshot had %r = %r but the pusher used add_if_new" % (name, had), d)
+        elif kind == "set_if_equals":
+            old = args[0]
+            if had is None:
+                ctx.check(old == ZERO, "push:unconditional-write:ref-absent-from-snapshot" if old is None
+                          else "push:expected-old-not-from-snapshot:ref-absent-from-snapshot",
+                          "ref %r was not in the pusher's snapshot but it wrote it with set_if_equals(expected=%r)" % (name, old), d)
+            else:
+                ctx.check(old == had, "push:unconditional-write:ref-in-snapshot" if old is None
+                          else "push:expected-old-not-from-snapshot:ref-in-snapshot",
+                          "snapshot had %r = %r but the pusher wrote it with expected=%r" % (name, had, old), d)
+        elif kind == "remove_if_equals":
+            old = args[0]
+            ctx.check(old is not None and old == had, "push:unconditional-delete",
+                      "pusher deleted %r with expected=%r (snapshot %r)" % (name, old, had), d)
+
+
+def push_case(ctx):
+    from breezy.branchbuilder import BranchBuilder
+    from breezy.controldir import format_registry
+    from breezy.git.transportgit import TransportRefsContainer
+    from breezy.transport import get_transport
+
+    rng = ctx.rng
+    root = ctx.tmp("c37push")
+    nrev = rng.randint(3, 4)
+    b = BranchBuilder(get_transport("memory:///").clone("src"), format="2a")
+    b.start_series()
+    try:
+        b.build_snapshot([], [("add", ("", b"root-id", "directory", None)), ("add", ("a", b"a-id", "file", b"0\n"))], revision_id=b"r1")
+        for i in range(2, nrev + 1):
+            b.build_snapshot([b"r%d" % (i - 1)], [("modify", ("a", b"%d\n" % i))], revision_id=b"r%d" % i)
+    finally:
+        b.finish_series()
+    src = b.get_branch()
+    bare = rng.random() < 0.5
+    dst = os.path.join(root, "git")
+    os.mkdir(dst)
+    cd = format_registry.make_controldir("git-bare" if bare else "git").initialize(dst)
+    gitdir = dst if bare else os.path.join(dst, ".git")
+    names = list(PUSH_REF_NAMES)
+    rng.shuffle(names)
+    R, S, N = names[0], names[1], names[2]
+
+    def ref(n):
+        return b"refs/heads/" + n.encode()
+
+    def on_disk(n):
+        snap, _ = snapshot(gitdir, gitdir)
+        return resolve(snap, ref(n))[1]
+
+    def push(mon, branch_name, revid, rival=None, new=True):
+        mon.reset(rival)
+        tb = cd.create_branch(name=branch_name) if new else cd.open_branch(name=branch_name)
+        tb.repository._git.refs._vf_pusher = True
+        try:
+            tb.repository._git.refs._vf_pusher = True
+            res = src.push(tb, lossy=True, stop_revision=revid)
+            return ("ok", res)
+        except Exception as e:
+            return ("raised", e)
+
+    base = {"bare": bare, "refs": [R, S, N]}
+    with PushMonitor(gitdir) as mon:
+        # quiet pushes: new ref R at r1, new ref S at r2 (gives two commit ids to play with)
+        r = push(mon, R, b"r1")
+        judge_push_writes(ctx, mon, "quiet:new-ref", base)
+        g1 = on_disk(R)
+        r2 = push(mon, S, b"r2")
+        judge_push_writes(ctx, mon, "quiet:new-ref", base)
+        g2 = on_disk(S)
+        if r[0] != "ok" or r2[0] != "ok" or not g1 or not g2 or g1 == g2:
+            ctx.discard("push setup failed: %r %r" % (r, r2))
+        ctx.count("push_quiet")
+        scenario = rng.choice(("new-ref", "new-ref", "existing-ref", "existing-ref-deleted"))
+        point = rng.choice(RIVAL_POINTS)
+        rivalc = TransportRefsContainer(get_transport(gitdir))
+        last = b"r%d" % nrev
+        acted = {}
+        if scenario == "new-ref":
+            name, rv = N, rng.choice((g1, g2))
+
+            def act():
+                acted["ret"] = rivalc.add_if_new(ref(N), rv)
+            out = push(mon, N, last, rival=(point, act))
+        elif scenario == "existing-ref":
+            name, rv = R, g2
+
+            def act():
+                acted["ret"] = rivalc.set_if_equals(ref(R), g1, g2)
+            out = push(mon, R, last, rival=(point, act), new=False)
+        else:
+            name, rv = R, None
+
+            def act():
+                acted["ret"] = rivalc.remove_if_equals(ref(R), g1)
+            out = push(mon, R, last, rival=(point, act), new=False)
+        now = on_disk(name)
+        d = dict(base, scenario=scenario, rival_point=point, rival_fired=mon.rival_fired, rival_returned=acted.get("ret"),
+                 ref=name, rival_value=jb(rv), value_after_push=jb(now), push_outcome=out[0] if out[0] == "ok" else repr(out[1])[:200],
+                 snapshot=jb({k: v[0] for k, v in (mon.snapshot or {}).items()}),
+                 writes=[[k, jb(nm), jb(list(a)), rt] for k, nm, a, rt in mon.calls])
+        judge_push_writes(ctx, mon, "rival:" + scenario, d)
+        ctx.hist("push:%s:%s:%s" % (scenario, point, out[0]))
+        if not mon.rival_fired or not acted.get("ret"):
+            ctx.hist("push:rival-did-not-act")
+        else:
+            ctx.count("push_rival_judged")
+            # the pusher expected what its snapshot said; the ref holds the rival's value now => its conditional
+            # update must be refused and the rival's value must survive
+            ctx.check(now == rv, "push:rival-ref-overwritten:%s" % scenario,
+                      "rival set %s to %r after the pusher's snapshot (%s); after the push it holds %r" % (name, rv, point, now), d)
+        ctx.distinct("push_outcome", (scenario, point, out[0], now == rv))
+        ctx.note(("push", scenario, point, bare, out[0]), nontrivial=mon.rival_fired,
+                 sample=d if rng.random() < 0.05 else None)
+
+
 def case(ctx):
     n = CASES[ctx.tier]
     reps = REPS[ctx.tier]
@@ -700,6 +1097,13 @@ def case(ctx):
         for combo in mine:
             execute(ctx, combo)
             ctx.cleanup()
+    for _ in range(STALE_REPS[ctx.tier]):
+        for combo, change in [c for i, c in enumerate(STALE_COMBOS) if i % n == ctx.index]:
+            execute(ctx, combo, change)
+            ctx.cleanup()
+    for _ in range(PUSH_REPS[ctx.tier]):
+        push_case(ctx)
+        ctx.cleanup()
     if SCHEDULE_HALF:
         for _ in range(SCHED_REPS[ctx.tier]):
             schedule_case(ctx)
